@@ -15,7 +15,7 @@ VERIF = os.path.dirname(os.path.dirname(os.path.abspath(__file__)))
 ENVLINE = ("export PATH=/root/go/pkg/mod/golang.org/toolchain@v0.0.1-go1.24.9.linux-amd64/bin:$PATH "
            "GOTOOLCHAIN=local GOFLAGS=-mod=mod GOPROXY=off GOSUMDB=off GOWORK=off")
 
-TEMPLATE = """You are working in a scratch git worktree at {wt} of the Go repository lightninglabs/lightning-node-connect ("Lightning Node Connect": a Noise/SPAKE2 encrypted gRPC transport tunnelled over a mailbox relay, with its own Go-Back-N reliable-delivery protocol). The two Go modules that matter are gbn/ (Go-Back-N) and mailbox/ (Noise handshake, record layer, mailbox connections). Work ONLY inside {wt} . Never read or touch /repo or /verif (you have no business there; do not look at them).
+TEMPLATE = """You are working in a scratch git worktree at {wt} of the Go repository lightninglabs/lightning-node-connect ("Lightning Node Connect": a Noise/SPAKE2 encrypted gRPC transport tunnelled over a mailbox relay, with its own Go-Back-N reliable-delivery protocol). The two Go modules that matter are gbn/ (Go-Back-N) and mailbox/ (Noise handshake, record layer, mailbox connections). Work ONLY inside {wt} . Never read or touch /repo or /verif (you have no business there; do not look at them). NEVER use `git stash` (the stash is shared between all worktrees of this repository and other engineers work in sibling worktrees); keep your edits as patch files instead.
 
 Every shell command must start with this environment line (the sandbox is offline):
 {env}
